@@ -283,7 +283,31 @@ static void body_reuse(Tape &t, Ctx &c) {
 	igzc::StreamPlan pb = igzc::decode_plan(t, B.size());
 	c.fpmix(inflate); c.fpmix(dg::fingerprint(sa)); c.fpmix(dg::fingerprint(sb) * 3); c.fpmix(level * 1000 + gz * 100 + levelA * 10 + gzA); c.fpmix(use_reset * 2 + complete_a); c.fpmix(abandon); c.fpmix(pb.in.mode * 7 + pb.in.param); c.fpmix(pb.out.mode * 7 + pb.out.param); c.fpmix(pb.flush_mode);
 	std::string what;
-	if (!inflate) {
+	if (!inflate && (mix64(dg::fingerprint(sa) ^ dg::fingerprint(sb)) % 3) == 0) {
+		// one-shot calls repeated on ONE stream struct without any init/reset in between (isal_deflate_stateless re-arms its own state):
+		// job A possibly cut short by STATELESS_OVERFLOW, then job B - B's bytes must be those of a fresh struct
+		igz::DefOpts of;
+		uint64_t hm = mix64(dg::fingerprint(sa) * 3 + abandon);
+		if (hm & 1) level = 3; // the level with the deepest per-call state (queued match table)
+		of.level = level; of.gzip_flag = 0; of.lbuf_size = igz::lvl_buf_size(level, (hm >> 1) % 2 ? 0 : (int) (abandon % 5)); of.stateless = true;
+		igz::Deflater fresh(of);
+		size_t capB = B.size() + B.size() / 8 + 4096;
+		igz::CallInfo cf = fresh.call(B.data(), B.size(), capB, NO_FLUSH, true);
+		PBT_CHECK(!cf.faulted && cf.problem.empty() && cf.rc == COMP_OK, "determinism:reuse:call", "one-shot B on a fresh struct: rc %d %s", cf.rc, cf.problem.c_str());
+		igz::Deflater d(of);
+		size_t capA = complete_a ? A.size() + A.size() / 8 + 4096 : (size_t) (abandon % 5000);
+		igz::CallInfo ca = d.call(A.data(), A.size(), capA, NO_FLUSH, true);
+		PBT_CHECK(!ca.faulted, "determinism:reuse:call", "one-shot A: %s", ca.problem.c_str());
+		d.out.clear(); d.pending.clear();
+		igz::CallInfo cb = d.call(B.data(), B.size(), capB, NO_FLUSH, true);
+		what = fmt("isal_deflate_stateless level %d level_buf %u: job A (%zu bytes, avail_out %zu -> rc %d), then job B (%zu bytes) on the same struct without init", level, of.lbuf_size, A.size(), capA, ca.rc, B.size());
+		PBT_CHECK(!cb.faulted && cb.rc == COMP_OK, "determinism:reuse:call", "%s: rc %d %s", what.c_str(), cb.rc, cb.problem.c_str());
+		std::string v2 = igzc::verify_stream(d.out, B, 0, 0);
+		PBT_CHECK(v2.empty(), "determinism:reuse:decode", "%s: %s", what.c_str(), v2.c_str());
+		PBT_CHECK(d.out == fresh.out, "determinism:reuse", "%s: %zu bytes, a fresh struct gives %zu (first difference at %zu)", what.c_str(), d.out.size(), fresh.out.size(), (size_t) (std::mismatch(d.out.begin(), d.out.begin() + std::min(d.out.size(), fresh.out.size()), fresh.out.begin()).first - d.out.begin()));
+		c.label("one-shot-repeated-without-init");
+		c.label(ca.rc == COMP_OK ? "job-A-completed" : "job-A-overflowed");
+	} else if (!inflate) {
 		auto runB = [&](igz::Deflater &d) { igzc::StreamPlan p = pb; std::string ks, e = igzc::run_stream(d, B, p, ks); if (ks == "inconclusive") throw Skip("inconclusive"); if (!e.empty()) throw Violation("determinism:reuse:" + ks, "compressing B: " + e); };
 		igz::DefOpts of;
 		of.level = level; of.gzip_flag = gz; of.lbuf_size = lb;
